@@ -591,7 +591,20 @@ func clientProgram(run *ev.Run, caseID string, r *rand.Rand, elected bool) {
 		ctx, cancel := context.WithCancel(context.Background())
 		defer cancel()
 		c.Start(ctx, t)
-		c.StartSending(ctx, t)
+		// one program in three starts with its messages held back (StartSending comes a few
+		// steps later); one in four goes through a second session (Await, Stop, Start again):
+		// ids go on counting, the stamp stays the most recently set id
+		startAt := 0
+		if r.Intn(3) == 0 {
+			startAt = 1 + r.Intn(4)
+		}
+		restartAt := -1
+		if r.Intn(4) == 0 {
+			restartAt = startAt + 1 + r.Intn(6)
+		}
+		if startAt == 0 {
+			c.StartSending(ctx, t)
+		}
 		var pool []*builder
 		// Modify() handles: fresh ones and ones held across other calls (the handle type is
 		// unexported, hence the closures)
@@ -625,6 +638,23 @@ func clientProgram(run *ev.Run, caseID string, r *rand.Rand, elected bool) {
 		id := uint64(0)
 		steps := 3 + r.Intn(12)
 		for s := 0; s < steps; s++ {
+			if s == startAt && startAt > 0 {
+				c.StartSending(ctx, t)
+				trace = append(trace, "StartSending (messages so far were held)")
+			}
+			if s == restartAt && s >= startAt {
+				wctx, wcancel := context.WithTimeout(ctx, 20*time.Second)
+				err := c.Await(wctx, t)
+				wcancel()
+				if err != nil {
+					problems = append(problems, fmt.Sprintf("await-error|before the second session: %v", err))
+				}
+				c.Stop(t)
+				c.Start(ctx, t)
+				c.StartSending(ctx, t)
+				held = nil // handles of the first session are not used on the second
+				trace = append(trace, "Await, Stop, Start, StartSending (second session of the same client)")
+			}
 			switch x := r.Intn(10); {
 			case x < 2 && elected:
 				lo, hi := uint64(1+r.Intn(50)), []uint64{0, 1, 2, ^uint64(0)}[r.Intn(4)]
@@ -700,6 +730,9 @@ func clientProgram(run *ev.Run, caseID string, r *rand.Rand, elected bool) {
 				}
 				trace = append(trace, fmt.Sprintf("%s(%d entries) on a %s", kind, n, hn))
 			}
+		}
+		if startAt >= steps {
+			c.StartSending(ctx, t)
 		}
 		wctx, wcancel := context.WithTimeout(ctx, 20*time.Second)
 		defer wcancel()
